@@ -145,7 +145,8 @@ def _oracle_names(inputs, kind, val, env):
 
 
 POOL = ["PAD -L", "PAD -R", "PAD", "PAD  -L", "PAD  -R", "PAD-L", "PAD L", "PAD R", "PAD.", "PAD..", "+A", ".A", "#1", "A+B", "A B",
-        "A", "L", "R", "-L", " -L", "A -L", "A -R", "A  -L", "PAD 2", "PAD 2 L", "X.Y-L", "X.Y-R", "0", "..", "."]
+        "A", "L", "R", "-L", " -L", "A -L", "A -R", "A  -L", "PAD 2", "PAD 2 L", "X.Y-L", "X.Y-R", "0", "..", ".",
+        "PAD.WAV", "PAD.1", "PAD.2", "PAD.1-L", "PAD.1-R", "PAD.2-L", "PAD.2-R", "BRS+L", "BRS R", "BRS L", "BRS+R", "#FX-L", "0#FX-R", "0#FX-L", "#FX-R"]
 JUNK = ["nope", "A:/VOL/zzz", "A:/VOL/PAD/x/y", "A::", "B:", "A:/VOL//PAD", "\u00e9\u4e2d", "A:/VOL/\u00e9",
         "A:/VOL/PAD -L -R", "../..", "A:/VOL/..", "A:/VOL/PAD\x00", "C:/VOL", "A:/VOLX", "A:/VO", "AA:"]
 
@@ -160,7 +161,10 @@ def _small_names(tier, seed, shard=(0, 1)):
              # one stem claimed by a mono sample and by several pairs written with different separators
              ["PAD", "PAD -L", "PAD -R", "PAD L", "PAD R"], ["PAD -L", "PAD -R", "PAD L", "PAD R", "PAD"],
              ["PAD -L", "PAD -R", "PAD L", "PAD R", "PAD  -L", "PAD  -R"], ["PAD L", "PAD L", "PAD -L", "PAD -L"],
-             ["PAD - R", "PAD - R", "PAD R", "PAD R", "PAD"]]
+             ["PAD - R", "PAD - R", "PAD R", "PAD R", "PAD"],
+             # names that differ only after the last dot; pairs whose raw names order differently from their export names
+             ["PAD.1", "PAD.2", "PAD"], ["PAD.1-L", "PAD.1-R", "PAD.2-L", "PAD.2-R"], ["PAD", "PAD.WAV"], ["BRS+L", "BRS R"], ["BRS R", "BRS+L"],
+             ["0#FX-L", "#FX-R"], ["#FX-R", "0#FX-L"], ["BRS L", "BRS+R"], ["#FX-L", "0#FX-R"]]
     for a, b in itertools.combinations(POOL[:16], 2):
         cases.append([a, b])
     rnd = random.Random(3000 + seed)
@@ -184,8 +188,8 @@ def _n(c):
 CONCRETE["e2e:names"] = {
     "build": _build_names, "small": _small_names, "oracle": _oracle_names, "shards": 8,
     "nontrivial": lambda i, s: s["kind"] == "return",
-    "bound": "AKAI volumes whose sibling names are drawn from a 30-name near-collision pool (stems with/without -L/-R/ L/ R, doubled "
-             "separators, duplicates, dots, leading punctuation): 15 fixed multisets, all pairs of 16 names, 40 (quick) / 600 (thorough) random "
+    "bound": "AKAI volumes whose sibling names are drawn from a 45-name near-collision pool (stems with/without -L/-R/ L/ R, doubled "
+             "separators, duplicates, dots, leading punctuation): 29 fixed multisets, all pairs of 16 names, 40 (quick) / 600 (thorough) random "
              "multisets of 2..5; every printed name resolved through two path spellings; 18 junk paths incl. unicode",
     "timeout_s": 60.0, "budget_quick": 200, "budget_thorough": 1500,
 }
@@ -271,14 +275,16 @@ def _oracle_cdda(inputs, kind, val, env):
 
 
 TITLES = ["Song", "Song", "../../escaped", "a/b", "a\\b", "..", ".", "x:y", "tab\there", "quote's", "semi;colon", " lead", "trail ",
-          "dot.", "A -L", "A -R", "", None, "CON", "ü"[:0] + "plain 2", "(1)", "Song (2)", "#1", "-x", "*?<>|"]
+          "dot.", "A -L", "A -R", "", None, "CON", "ü"[:0] + "plain 2", "(1)", "Song (2)", "#1", "-x", "*?<>|",
+          "Song.wav", "Song.WAV", "Song.", "Song!", "Song?", "song", "Song (1)", "Song.wav.wav", "a/b.wav"]
 
 
 def _small_cdda(tier, seed, shard=(0, 1)):
     import itertools
     import random
     cases = [["Song", "Song"], ["../../escaped"], ["a/b", "a\\b"], ["..", "."], ["Song", "Song (2)", "Song"], [None, None], ["A -L", "A -R"],
-             ["x", "../x"], ["", " "]]
+             ["x", "../x"], ["", " "], ["Song", "Song.wav"], ["Song.WAV", "Song", "Song.wav"], ["Song!", "Song?", "Song."],
+             ["Song (1)", "Song", "Song"], ["Song", "Song", "Song (2)"]]
     for t in TITLES:
         cases.append([t])
     rnd = random.Random(4000 + seed)
@@ -299,7 +305,7 @@ def _cn(c):
 CONCRETE["e2e:cdda_names"] = {
     "build": _build_cdda, "small": _small_cdda, "oracle": _oracle_cdda, "shards": 4,
     "nontrivial": lambda i, s: s["kind"] == "return",
-    "bound": "cue sheets of 1..4 audio tracks with TITLEs from a 25-entry pool (duplicates, '/', '\\\\', '..', control characters, "
+    "bound": "cue sheets of 1..4 audio tracks with TITLEs from a 34-entry pool (duplicates, '/', '\\\\', '..', control characters, "
              "leading/trailing blanks, empty, missing), bins with 0..5 trailing bytes; destination two levels below the work directory "
              "so that an escaping path is observable",
     "timeout_s": 60.0, "budget_quick": 120, "budget_thorough": 600,
